@@ -24,6 +24,42 @@ func fF5(p *Prog, o *obls, fn *ssa.Function) {
 			return
 		}
 		if b, ok := bo.Type().Underlying().(*types.Basic); !ok || b.Info()&types.IsInteger == 0 {
+			// a ratio of two counts computed in floating point — float64(lost) / float64(total) — does not panic for
+			// total == 0 but yields NaN (0/0) or ±Inf: fed into an exponential average the NaN stays for ever and
+			// every later comparison with a threshold is false. The integer divisor is judged like an integer division.
+			if ok && b.Info()&types.IsFloat != 0 && bo.Op == token.QUO {
+				cx, okx := p.origin(bo.X).(*ssa.Convert)
+				cy, oky := p.origin(bo.Y).(*ssa.Convert)
+				if okx && oky {
+					_, _, ix := intInfo(cx.X.Type())
+					_, _, iy := intInfo(cy.X.Type())
+					// only a *count*: a length, or a counter accumulated on the way (a φ) — differences of sequence numbers,
+					// durations and configuration values are value questions this rule does not decide
+					isCount := false
+					switch d := p.origin(cy.X).(type) {
+					case *ssa.Phi:
+						isCount = true
+					case *ssa.Call:
+						isCount = builtinName(&d.Call) == "len"
+					}
+					if _, isC := cy.X.(*ssa.Const); ix && iy && !isC && isCount {
+						key := fmt.Sprintf("%s:ratio by %s", funcKey(fn), shortExpr(p, cy.X))
+						seen[key]++
+						if seen[key] > 1 {
+							key = fmt.Sprintf("%s#%d", key, seen[key])
+						}
+						verdict, why := p.nonZero(cy.X, bo.Block(), nil, 0)
+						switch verdict {
+						case 1:
+							o.ok("F5", key, p.instrPos(bo), why)
+						case 2:
+							o.note("F5", key, p.instrPos(bo), why)
+						default:
+							o.bad("F5", key, p.instrPos(bo), "a ratio of counts is divided by "+shortExpr(p, cy.X)+", which is not tested against zero on the way ("+why+"): 0/0 is NaN, and a NaN that enters a running average never leaves it")
+						}
+					}
+				}
+			}
 			return
 		}
 		if _, isC := bo.Y.(*ssa.Const); isC {
